@@ -23,6 +23,7 @@ func init() {
 			"X3 also: every path of Fork.disabled to an 'enabled' verdict has passed the loop that examines the fork's ranges for zero length. " +
 			"X8 every creator of a fork's chunk objects (first run, re-attach) pads the chunk directory names to a width computed from the same expression. " +
 			"X9 the static fork enumeration never stores through the *ForkSourcePart it was handed (shared placeholder). " +
+			"X10 in SplitExp.BindingPath the arm for a value that narrowed to null does not return the un-narrowed Value. " +
 			"NOT decided: one fork per element/key (run-time counts), liveness (no job skipped).",
 		Assumptions: commonAssumptions,
 	}
@@ -38,6 +39,7 @@ func runC03(c *an.Ctx) {
 	ruleX6(c)
 	ruleChunkWidth(c, "X8")
 	ruleX9(c)
+	ruleX10(c)
 }
 
 // ---------------------------------------------------------------------------
